@@ -1,15 +1,12 @@
 """Seams: everything productmd resolves that the simulator owns.
 
-No source hook in /repo is needed.  Python resolves module globals before
-builtins, so planting the names `open`, `set` and `os` into the productmd
-modules redirects exactly the calls the library makes and nothing else; with
-the names removed productmd behaves as shipped.
+No source hook in /repo is needed.
 
-  open   -> SimFS.open            (all productmd modules)
-  os     -> _OsProxy              (all productmd modules; forwards everything
-                                   except the directory / existence calls for
-                                   paths under the simulated root)
-  set    -> SimSet                (composeinfo, images, treeinfo)
+  disk   -> builtins.open / io.open and the os.* functions that take a path are interposed process-wide: paths under
+            the virtual root "/sim" are translated to a private tmpfs directory, traced, and subject to the armed
+            read-side faults (see simfs.py); every other path passes through untouched
+  set    -> SimSet planted as the module global `set` in composeinfo, images, treeinfo (Python resolves module globals
+            before builtins); with the name removed productmd behaves as shipped
   _validate*  -> counting / fault-injecting wrappers around the REAL validators
   _urlopen    -> guard (network must never be reached)
 
@@ -191,90 +188,129 @@ def make_set(iterable=()):
 
 
 # --------------------------------------------------------------------------
-# os proxy
+# interposition: builtins.open / io.open and the os.* functions that take a path
 # --------------------------------------------------------------------------
-class _PathProxy(object):
-    def __getattr__(self, name):
-        return getattr(_real_os.path, name)
-
-    def exists(self, p):
-        if simfs.under_root(p):
-            return CTX.fs.exists(p)
-        return _real_os.path.exists(p)
-
-    lexists = exists
-
-    def isdir(self, p):
-        if simfs.under_root(p):
-            return CTX.fs.isdir(p)
-        return _real_os.path.isdir(p)
-
-    def isfile(self, p):
-        if simfs.under_root(p):
-            return CTX.fs.isfile(p)
-        return _real_os.path.isfile(p)
-
-    def getsize(self, p):
-        if simfs.under_root(p):
-            d = CTX.fs.get(p)
-            if d is None:
-                raise FileNotFoundError(p)
-            return len(d)
-        return _real_os.path.getsize(p)
+def _sim_open(file, mode="r", *a, **kw):
+    if not isinstance(file, int):
+        try:
+            p = _real_os.fspath(file)
+        except TypeError:
+            p = None
+        if isinstance(p, bytes):
+            try:
+                p = p.decode("utf-8")
+            except UnicodeDecodeError:
+                p = None
+        if isinstance(p, str) and simfs.under_root(p):
+            return CTX.fs.open(p, mode, *a, **kw)
+    return simfs._o_open(file, mode, *a, **kw)
 
 
-class _OsProxy(object):
-    path = _PathProxy()
+def _wrap1(name):
+    orig = simfs._o[name]
 
-    def __getattr__(self, name):
-        return getattr(_real_os, name)
-
-    def listdir(self, p="."):
-        if simfs.under_root(p):
-            return CTX.fs.listdir(p)
-        return _real_os.listdir(p)
-
-    def stat(self, p, *a, **kw):
-        if simfs.under_root(p):
-            return CTX.fs.stat(p)
-        return _real_os.stat(p, *a, **kw)
-
-    lstat = stat
-
-    def fstat(self, fd):
-        if isinstance(fd, int) and fd >= 100000:
-            return CTX.fs.fstat(fd)
-        return _real_os.fstat(fd)
-
-    def remove(self, p):
-        if simfs.under_root(p):
-            return CTX.fs.os_remove(p)
-        return _real_os.remove(p)
-
-    unlink = remove
-
-    def rename(self, a, b):
-        if simfs.under_root(a) or simfs.under_root(b):
-            return CTX.fs.os_rename(a, b)
-        return _real_os.rename(a, b)
-
-    replace = rename
-
-    def makedirs(self, p, mode=0o777, exist_ok=False):
-        if simfs.under_root(p):
-            return CTX.fs.os_makedirs(p, exist_ok=exist_ok)
-        return _real_os.makedirs(p, mode, exist_ok=exist_ok)
-
-    def mkdir(self, p, mode=0o777):
-        if simfs.under_root(p):
-            return CTX.fs.os_makedirs(p)
-        return _real_os.mkdir(p, mode)
+    def w(path, *a, **kw):
+        return orig(simfs.translate(path), *a, **kw)
+    w.__name__ = name
+    return w
 
 
-def _sim_open(path, mode="r", *a, **kw):
-    if simfs.under_root(path):
-        return CTX.fs.open(path, mode, *a, **kw)
-    raise HarnessError("productmd opened a real path: %r" % (path,))
+def _wrap2(name):
+    orig = simfs._o[name]
+
+    def w(src, dst, *a, **kw):
+        return orig(simfs.translate(src), simfs.translate(dst), *a, **kw)
+    w.__name__ = name
+    return w
+
+
+def _sim_listdir(path="."):
+    try:
+        p = _real_os.fspath(path) if not isinstance(path, int) else None
+    except TypeError:
+        p = None
+    if isinstance(p, str) and simfs.under_root(p):
+        return CTX.fs.listdir(p)
+    return simfs._o["listdir"](path)
+
+
+def _sim_os_open(path, flags, mode=0o777, **kw):
+    try:
+        p = _real_os.fspath(path)
+    except TypeError:
+        p = None
+    if isinstance(p, str) and simfs.under_root(p):
+        sim = simfs.norm(p)
+        if flags & (_real_os.O_WRONLY | _real_os.O_RDWR):
+            CTX.fs.trace.append(("open_w", sim, "os.open"))
+        else:
+            CTX.fs.trace.append(("open_r", sim, "os.open"))
+        return simfs._o["open"](simfs.to_real(p), flags, mode, **kw)
+    return simfs._o["open"](path, flags, mode, **kw)
+
+
+class _SimScandir(object):
+    """os.scandir under the virtual root: the real entries in the run's adversarial directory order"""
+
+    def __init__(self, entries):
+        self._it = iter(entries)
+
+    def __iter__(self):
+        return self
+
+    def __next__(self):
+        return next(self._it)
+
+    def close(self):
+        self._it = iter(())
+
+    def __enter__(self):
+        return self
+
+    def __exit__(self, *a):
+        self.close()
+        return False
+
+
+def _sim_scandir(path="."):
+    try:
+        p = _real_os.fspath(path) if not isinstance(path, int) else None
+    except TypeError:
+        p = None
+    if isinstance(p, str) and simfs.under_root(p):
+        with simfs._o["scandir"](simfs.to_real(p)) as it:
+            entries = sorted(it, key=lambda e: e.name)
+        fs = CTX.fs
+        if fs.listdir_mode == "reverse":
+            entries.reverse()
+        elif fs.listdir_mode == "shuffle" and fs.listdir_rng is not None:
+            fs.listdir_rng.shuffle(entries)
+            fs.fired("F7.listdir_order")
+        fs.trace.append(("scandir", simfs.norm(p), len(entries)))
+        return _SimScandir(entries)
+    return simfs._o["scandir"](path)
+
+
+_interposed = []
+
+
+def interpose():
+    if _interposed:
+        return
+    import builtins
+    import io
+    builtins.open = _sim_open
+    io.open = _sim_open
+    _real_os.scandir = _sim_scandir
+    for name in ("stat", "lstat", "mkdir", "rmdir", "remove", "unlink", "chmod", "utime", "access", "truncate", "readlink", "makedirs"):
+        setattr(_real_os, name, _wrap1(name))
+    for name in ("rename", "replace", "link", "symlink"):
+        setattr(_real_os, name, _wrap2(name))
+    _real_os.listdir = _sim_listdir
+    _real_os.open = _sim_os_open
+    import atexit
+    atexit.register(simfs.cleanup)
+    _interposed.append(True)
 
 
 def _guard_urlopen(path):
@@ -319,11 +355,7 @@ def install(repo=None):
     got = _real_os.path.realpath(_real_os.path.dirname(_real_os.path.dirname(mods["common"].__file__)))
     if got != _real_os.path.realpath(repo):
         raise HarnessError("productmd imported from %s, expected %s" % (got, repo))
-    proxy = _OsProxy()
-    for name, mod in mods.items():
-        mod.open = _sim_open
-        if hasattr(mod, "os"):
-            mod.os = proxy
+    interpose()
     for name in SET_MODULES:
         mods[name].set = SimSet
     mods["common"]._urlopen = _guard_urlopen
